@@ -24,8 +24,8 @@
 
 const char *verif_property = "C05";
 const char *verif_class_names[] = { "refused", "accepted_default_auth", "accepted_custom_owner", "accepted_custom_mode", "non_root_client", "effective_differs_from_real", "concurrent_mix",
-	"refused_and_accepted_together", "moments_observed_100", "shm", "socket", "client_talked", NULL };
-enum { K_REFUSED, K_DEFAULT, K_OWNER, K_MODE, K_NONROOT, K_EUID, K_CONC, K_MIX, K_MOMENTS, K_SHM, K_SOCK, K_TALKED };
+	"refused_and_accepted_together", "moments_observed_100", "shm", "socket", "client_talked", "auth_set_leaves_an_id_alone", NULL };
+enum { K_REFUSED, K_DEFAULT, K_OWNER, K_MODE, K_NONROOT, K_EUID, K_CONC, K_MIX, K_MOMENTS, K_SHM, K_SOCK, K_TALKED, K_KEEPID };
 const char *verif_rule =
 	"case = transport and 1-4 forked clients, each with generated credentials (uid/gid from {0, 1000..1005}/{0, 2000..2003}, sometimes effective != real), an accept decision (refuse with one of 10 "
 	"error codes, or accept with default / generated owner, group and mode) and the server step choices that interleave them; non-trivial = at least one non-root client and at least one custom "
@@ -49,7 +49,8 @@ static void msleep(int ms) { struct timespec ts = { ms / 1000, (ms % 1000) * 100
 struct client {
 	pid_t pid; uid_t ruid, euid; gid_t rgid, egid;
 	bool refuse; int err;				/* decision */
-	bool custom; uid_t auid; gid_t agid; mode_t amode;	/* authorisation (custom or default) */
+	bool custom; uid_t auid; gid_t agid; mode_t amode;	/* authorisation (custom or default): what the files must end up with */
+	bool keep_uid, keep_gid;	/* the callback passes -1 for that id (chown's 'leave it alone'): the server's own id stays */
 	bool talk;
 	int to_child, from_child; std::string rep; bool dead;
 	bool accept_seen; bool msg_seen; bool connected; bool reported_fail; int reported_errno;
@@ -76,7 +77,10 @@ static void check_entry(const std::string &path, const struct stat &st, client &
 		if (m & ~c.amode & 0777) VFAIL(R, "file-more-permissive", "%s has mode %04o, the accept callback chose %04o", path.c_str(), m, c.amode);
 	}
 	if (stable && !R->fail) {
-		if (st.st_uid != c.auid || st.st_gid != c.agid)
+		/* an id the callback left alone (-1, as for chown) stays what it was: the server's for the files it creates; the directory has been handed to the client's ids before the callback runs */
+		bool uid_ok = st.st_uid == c.auid || (c.keep_uid && S_ISDIR(st.st_mode) && st.st_uid == c.euid);
+		bool gid_ok = st.st_gid == c.agid || (c.keep_gid && S_ISDIR(st.st_mode) && st.st_gid == c.egid);
+		if (!uid_ok || !gid_ok)
 			VFAIL(R, "wrong-owner", "%s is owned by %d:%d, the accept callback authorised %d:%d (client is %d:%d)", path.c_str(), (int)st.st_uid, (int)st.st_gid, (int)c.auid, (int)c.agid, (int)c.euid, (int)c.egid);
 	}
 }
@@ -123,7 +127,7 @@ static int32_t s_accept(qb_ipcs_connection_t *c, uid_t uid, gid_t gid)
 	if (uid != k->euid || gid != k->egid)
 		VFAIL(R, "wrong-credentials", "connection_accept was given uid %d gid %d for a client whose effective ids are %d:%d (real %d:%d)", (int)uid, (int)gid, (int)k->euid, (int)k->egid, (int)k->ruid, (int)k->rgid);
 	if (k->refuse) return -k->err;
-	if (k->custom) qb_ipcs_connection_auth_set(c, k->auid, k->agid, k->amode);
+	if (k->custom) qb_ipcs_connection_auth_set(c, k->keep_uid ? (uid_t)-1 : k->auid, k->keep_gid ? (gid_t)-1 : k->agid, k->amode);
 	return 0;
 }
 static void s_created(qb_ipcs_connection_t *) {}
@@ -194,12 +198,12 @@ extern "C" int verif_case(const uint8_t *data, size_t size, struct verif_report 
 		if (split == 1) { unsigned g2 = vr_u8(&V) % 5; k.egid = g2 == 0 ? 0 : 1999 + g2; }
 		unsigned dec = vr_u8(&V) % 4;
 		k.refuse = dec == 0; k.err = ERRS[vr_u8(&V) % 10];
-		k.custom = dec >= 2;
+		k.custom = dec >= 2; k.keep_uid = k.keep_gid = false;
 		k.auid = k.euid; k.agid = k.egid; k.amode = 0600;
 		if (k.custom) {
 			unsigned w = vr_u8(&V);
-			if (w & 1) { unsigned a = vr_u8(&V) % 7; k.auid = a == 0 ? 0 : 999 + a; }
-			if (w & 2) { unsigned a = vr_u8(&V) % 5; k.agid = a == 0 ? 0 : 1999 + a; }
+			if (w & 1) { unsigned a = vr_u8(&V) % 7; k.auid = a == 0 ? 0 : 999 + a; if (a == 6) { k.keep_uid = true; k.auid = geteuid(); VCLASS(r, K_KEEPID); } }
+			if (w & 2) { unsigned a = vr_u8(&V) % 5; k.agid = a == 0 ? 0 : 1999 + a; if (a == 4) { k.keep_gid = true; k.agid = getegid(); VCLASS(r, K_KEEPID); } }
 			k.amode = (w & 4) ? MODES[vr_u8(&V) % 8] : 0600;
 			if (k.auid != k.euid || k.agid != k.egid) VCLASS(r, K_OWNER);
 			if (k.amode != 0600) VCLASS(r, K_MODE);
